@@ -52,6 +52,9 @@ func rejectAll(flat map[string]string) string { return "rejected by the model" }
 
 // allObjectIDs lists every (controller, id) pair that names an existing object (plus the next transaction index).
 func (w *World) allObjectIDs() []Token {
+	if w.cfg.V3 {
+		return w.allObjectIDs3()
+	}
 	v := w.View()
 	var out []Token
 	for _, t := range v.Txs {
